@@ -156,12 +156,20 @@ fn resolve<S: HasComponent<Component>>(
         token::Value::CommandRef(command_ref) => command_ref,
         _ => unreachable!(),
     };
-    let (array_index, array_len) = *input
+    // The array is looked up by the name it was created with, so a \let alias of the array's
+    // control sequence cannot be resolved (see the documentation of \newIntArray).
+    let Some((array_index, array_len)) = input
         .state()
         .component()
         .array_refs
         .get(&command_ref)
-        .unwrap();
+        .copied()
+    else {
+        return Err(input.fatal_error(error::SimpleTokenError::new(
+            token,
+            r"this is an alias of an array created by \newIntArray; arrays cannot be aliased using \let",
+        )));
+    };
     let inner_index = parse::Uint::<{ parse::Uint::MAX }>::parse(input)?.0;
     if inner_index >= array_len {
         return Err(input.fatal_error(error::SimpleTokenError::new(
